@@ -291,6 +291,12 @@ func (r *Runner) Exec(line string) (lhs string, res string) {
 	needLog := func() bool { return sd.log != nil }
 
 	switch op {
+	case "edge":
+		// edge <ver> <delta>: the size limit of a message body at its edge, in a log of its own. A batch whose
+		// second message has key+value of exactly (64 MiB + delta) bytes is published between small ones; it must be
+		// accepted as a whole iff delta <= 0, and a refused batch leaves nothing behind (the next publish continues
+		// where the log was). 64 MiB is the documented limit (the T1 obligation ties the code's constant to it).
+		return lhs, r.edgeCase(int(atoi(args[0])), atoi(args[1]))
 	case "open":
 		if sd.log != nil {
 			return lhs, "bad-op already-open"
@@ -654,6 +660,61 @@ func (r *Runner) Exec(line string) (lhs string, res string) {
 		return lhs, "ok"
 	}
 	return lhs, "bad-op"
+}
+
+func (r *Runner) edgeCase(ver int, delta int64) string {
+	dir := filepath.Join(r.root, "edge")
+	_ = os.RemoveAll(dir)
+	defer os.RemoveAll(dir)
+	v := klevdb.V2
+	if ver == 1 {
+		v = klevdb.V1
+	}
+	l, err := klevdb.Open(dir, klevdb.Options{CreateDirs: true, KeyIndex: true, Version: klevdb.VersionOptions{NewSegmentsVersion: v}})
+	if err != nil {
+		return errRes(err)
+	}
+	defer l.Close()
+	small := func(i byte) klevdb.Message {
+		return klevdb.Message{Time: time.UnixMicro(1_000_000 + int64(i)).UTC(), Key: []byte{'k', i}, Value: []byte{'v', i}}
+	}
+	if _, err := l.Publish([]klevdb.Message{small(0)}); err != nil {
+		return errRes(err)
+	}
+	big := klevdb.Message{Time: time.UnixMicro(1_000_002).UTC(), Key: []byte("kk"), Value: make([]byte, 64*1024*1024+delta-2)}
+	big.Value[0], big.Value[len(big.Value)-1] = 0xA5, 0x5A
+	_, perr := l.Publish([]klevdb.Message{small(1), big})
+	if _, err := l.Publish([]klevdb.Message{small(3)}); err != nil {
+		return errRes(err)
+	}
+	next, _ := l.NextOffset()
+	var offs []string
+	bigOK := "-"
+	off := klevdb.OffsetOldest
+	for i := 0; i < 16; i++ {
+		nxt, ms, err := l.Consume(off, 1)
+		if err != nil {
+			return "scan-" + errRes(err)
+		}
+		if len(ms) == 0 {
+			break
+		}
+		for _, m := range ms {
+			offs = append(offs, strconv.FormatInt(m.Offset, 10))
+			if len(m.Value) > 1000 {
+				bigOK = "ok"
+				if len(m.Value) != len(big.Value) || m.Value[0] != 0xA5 || m.Value[len(m.Value)-1] != 0x5A || string(m.Key) != "kk" {
+					bigOK = "differs"
+				}
+			}
+		}
+		off = nxt
+	}
+	st := "accepted"
+	if perr != nil {
+		st = "refused"
+	}
+	return fmt.Sprintf("%s next=%d offs=%s big=%s", st, next, strings.Join(offs, ","), bigOK)
 }
 
 // scanMap: every live message by offset (a full Consume scan).
